@@ -60,7 +60,34 @@ func embeds(s, t nt) bool {
 	}
 }
 
-var positions = []string{"let", "assign", "arg", "return", "field", "elem", "result"}
+var positions = []string{"let", "assign", "arg", "return", "field", "elem", "result",
+	// more places where a value meets an expected type
+	"catch-fallback", "coalesce-default", "second-arg", "method-arg", "closure-return", "field-assign", "elem-assign"}
+
+// forms of the source expression (all of static type S); "var" is the plain variable
+var forms = []string{"var", "sum", "quot", "paren", "call", "field-read", "elem-read", "narrowed", "neg"}
+
+func srcExpr(form string) string {
+	switch form {
+	case "sum":
+		return "x + x"
+	case "quot":
+		return "x / x"
+	case "paren":
+		return "(x)"
+	case "call":
+		return "idS(x)"
+	case "field-read":
+		return "sb.V"
+	case "elem-read":
+		return "sa[0]"
+	case "narrowed":
+		return "o"
+	case "neg":
+		return "-x"
+	}
+	return "x"
+}
 
 func lit(s nt) string {
 	if s.float {
@@ -69,13 +96,30 @@ func lit(s nt) string {
 	return "1"
 }
 
-func program(s, t nt, pos string, cast bool) string {
-	x := "x"
+func program(s, t nt, pos string, cast bool) string { return programF(s, t, pos, cast, "var") }
+
+func programF(s, t nt, pos string, cast bool, form string) string {
+	x := srcExpr(form)
 	if cast {
-		x = "x as " + t.name
+		if form == "var" || form == "narrowed" {
+			x = x + " as " + t.name
+		} else {
+			x = "(" + x + ") as " + t.name
+		}
 	}
 	var b strings.Builder
 	b.WriteString("import \"std/io\";\n")
+	fmt.Fprintf(&b, "fn idS(v: %s) -> %s { return v; }\ntype SBox struct { .V: %s };\n", s.name, s.name, s.name)
+	switch pos {
+	case "catch-fallback":
+		fmt.Fprintf(&b, "fn okT(f: bool) -> str ! %s { if f { return \"e\"!; } return %s; }\n", t.name, lit(t))
+	case "second-arg":
+		fmt.Fprintf(&b, "fn take2(u: bool, v: %s) { }\n", t.name)
+	case "method-arg":
+		fmt.Fprintf(&b, "type Rc struct { .A: i32 };\nfn (r: Rc) take(v: %s) { }\n", t.name)
+	case "field-assign":
+		fmt.Fprintf(&b, "type Box struct { .V: %s };\n", t.name)
+	}
 	switch pos {
 	case "arg":
 		fmt.Fprintf(&b, "fn take(v: %s) { }\n", t.name)
@@ -86,7 +130,26 @@ func program(s, t nt, pos string, cast bool) string {
 	case "result":
 		fmt.Fprintf(&b, "fn conv(x: %s) -> str ! %s { return %s; }\n", s.name, t.name, x)
 	}
-	fmt.Fprintf(&b, "fn main() {\n    let x: %s = %s;\n", s.name, lit(s))
+	fmt.Fprintf(&b, "fn main() {\n    let x: %s = %s;\n    let sb := { .V = x } as SBox;\n    let sa: [2]%s = [x, x];\n    let o: %s? = x;\n", s.name, lit(s), s.name, s.name)
+	if form == "narrowed" {
+		b.WriteString("    if o != none {\n")
+	}
+	switch pos {
+	case "catch-fallback":
+		fmt.Fprintf(&b, "    let y: %s = okT(false) catch %s;\n", t.name, x)
+	case "coalesce-default":
+		fmt.Fprintf(&b, "    let oy: %s? = none;\n    let y: %s = oy ?? %s;\n", t.name, t.name, x)
+	case "second-arg":
+		fmt.Fprintf(&b, "    take2(true, %s);\n", x)
+	case "method-arg":
+		fmt.Fprintf(&b, "    let rc := { .A = 1 } as Rc;\n    rc.take(%s);\n", x)
+	case "closure-return":
+		fmt.Fprintf(&b, "    let cf := fn() -> %s { return %s; };\n", t.name, x)
+	case "field-assign":
+		fmt.Fprintf(&b, "    let bx := { .V = %s } as Box;\n    bx.V = %s;\n", lit(t), x)
+	case "elem-assign":
+		fmt.Fprintf(&b, "    let arr: [2]%s = [%s, %s];\n    arr[1] = %s;\n", t.name, lit(t), lit(t), x)
+	}
 	switch pos {
 	case "let":
 		fmt.Fprintf(&b, "    let y: %s = %s;\n", t.name, x)
@@ -103,6 +166,9 @@ func program(s, t nt, pos string, cast bool) string {
 	case "result":
 		b.WriteString("    let y := conv(x) catch e { return; };\n")
 	}
+	if form == "narrowed" {
+		b.WriteString("    }\n")
+	}
 	b.WriteString("}\n")
 	return b.String()
 }
@@ -112,6 +178,7 @@ type tc struct {
 	pos  string
 	cast bool
 	id   string
+	form string
 }
 
 func Run(c *vl.Ctx) {
@@ -124,7 +191,28 @@ func Run(c *vl.Ctx) {
 					if cast {
 						k = "cast"
 					}
-					cases = append(cases, tc{s, t, pos, cast, fmt.Sprintf("C11/%s/%s->%s/%s", k, s.name, t.name, pos)})
+					cases = append(cases, tc{s, t, pos, cast, fmt.Sprintf("C11/%s/%s->%s/%s", k, s.name, t.name, pos), "var"})
+				}
+			}
+			// the other forms of the source expression, in four positions
+			for _, form := range forms[1:] {
+				if form == "neg" && !s.signed {
+					continue
+				}
+				if s.name == "byte" && (form == "sum" || form == "quot" || form == "neg") {
+					continue
+				}
+				for _, pos := range []string{"let", "arg", "field", "catch-fallback"} {
+					if (pos == "return" || pos == "result") && form != "var" {
+						continue
+					}
+					for _, cast := range []bool{false, true} {
+						k := "implicit"
+						if cast {
+							k = "cast"
+						}
+						cases = append(cases, tc{s, t, pos, cast, fmt.Sprintf("C11/%s/%s->%s/%s/%s", k, s.name, t.name, pos, form), form})
+					}
 				}
 			}
 		}
@@ -136,11 +224,11 @@ func Run(c *vl.Ctx) {
 	var evals int64
 	pool.Map(len(cases), func(i int) *fe.Project {
 		k := cases[i]
-		return &fe.Project{ID: k.id, Files: map[string]string{"main.fer": program(k.s, k.t, k.pos, k.cast)}, Entry: "main.fer", Mode: "check", NoRender: true}
+		return &fe.Project{ID: k.id, Files: map[string]string{"main.fer": programF(k.s, k.t, k.pos, k.cast, k.form)}, Entry: "main.fer", Mode: "check", NoRender: true}
 	}, func(i int, r *fe.Result) {
 		k := cases[i]
 		c.Count("programs", 1)
-		src := program(k.s, k.t, k.pos, k.cast)
+		src := programF(k.s, k.t, k.pos, k.cast, k.form)
 		files := map[string]string{"main.fer": src}
 		if r.Panic != "" || r.Timeout || r.Crash != "" {
 			c.Fail(vl.Fail{Case: k.id, Obs: "front end did not answer: panic=" + r.Panic + " crash=" + r.Crash, Files: files})
@@ -172,7 +260,7 @@ func Run(c *vl.Ctx) {
 	})
 	evals = int64(len(cases))
 	for _, i := range []int{3, 500, 1201, 2000} {
-		c.Sample(map[string]string{"id": cases[i].id, "program": program(cases[i].s, cases[i].t, cases[i].pos, cases[i].cast)})
+		c.Sample(map[string]string{"id": cases[i].id, "program": programF(cases[i].s, cases[i].t, cases[i].pos, cases[i].cast, cases[i].form)})
 	}
 	c.Assume = append(c.Assume, "float formats are IEEE binary32/64/128/256 (significands 24/53/113/237), as the compiler's getFloatPrecision documents (7/16/34/71 digits)",
 		"the verdict is the front end's (typecheck-only pipeline), reached in-process exactly as compiler.Compile builds it")
